@@ -2,7 +2,8 @@
    Property theorems only; proofs live in Proofs/Uptime{,Est,Track,Hist}Proofs.v.
    MODEL = Model/Uptime.v (uptime.rs + the TIMESTAMPS arm of tcp_process.rs, exact arithmetic),
    SPEC = Spec/UptimeSpec.v.  Known classes (code departs from the property; witnesses below):
-     known_small_advance  in bounds but fewer than 5 ticks: withheld
+     known_small_advance  in bounds but fewer than 5 ticks: the pair is withheld (MIN_TS_DIFF); the code keeps
+                          waiting: no marker, the reference stays and later segments are evaluated
      known_role_split     role is part of the tracker key: SYN and later ACKs of one endpoint are
                           never paired when the port heuristic contradicts the handshake flags *)
 From Coq Require Import List ZArith Bool.
@@ -46,16 +47,17 @@ Check C19_grid_documented :
   forall n dd : Z, 0 < dd -> dd <= n <= 1500 * dd -> In (grid n dd) grid_points.
 Print Assumptions C19_grid_documented.
 
-(* ---- withheld: out of bounds => nothing (all t, v: no range hypothesis needed) ---- *)
+(* ---- withheld: out of bounds => nothing, and the evaluation is the one that sets the marker
+        (all t, v: no range hypothesis needed) ---- *)
 Theorem C19_withheld :
   forall t1 v1 t2 v2 : Z,
     in_bounds t1 v1 t2 v2 = false ->
-    model_estimate t1 v1 t2 v2 = None /\ spec_estimate t1 v1 t2 v2 = None.
+    model_eval t1 v1 t2 v2 = EvBad /\ model_estimate t1 v1 t2 v2 = None /\ spec_estimate t1 v1 t2 v2 = None.
 Proof. exact estimate_withheld. Qed.
 Check C19_withheld :
   forall t1 v1 t2 v2 : Z,
     in_bounds t1 v1 t2 v2 = false ->
-    model_estimate t1 v1 t2 v2 = None /\ spec_estimate t1 v1 t2 v2 = None.
+    model_eval t1 v1 t2 v2 = EvBad /\ model_estimate t1 v1 t2 v2 = None /\ spec_estimate t1 v1 t2 v2 = None.
 Print Assumptions C19_withheld.
 
 (* both halves in one equation *)
@@ -75,7 +77,7 @@ Theorem C19_sticky_bad :
   forall (tr : cache) (s : segment) (now : Z) (ref : tcp_timestamp) (h : list (segment * Z)),
     seg_valid s = true ->
     cache_get tr (seg_key s) = Some ref -> is_bad_frequency ref = false ->
-    model_estimate (recv_time_ms ref) (ts_val ref) now (sg_tsval s) = None ->
+    model_eval (recv_time_ms ref) (ts_val ref) now (sg_tsval s) = EvBad ->
     let tr' := fst (process_segment tr s now) in
     snd (process_segment tr s now) = ROut None None /\
     Forall silent (outputs_of (seg_key s) h (run_history tr' h)) /\
@@ -85,7 +87,7 @@ Check C19_sticky_bad :
   forall (tr : cache) (s : segment) (now : Z) (ref : tcp_timestamp) (h : list (segment * Z)),
     seg_valid s = true ->
     cache_get tr (seg_key s) = Some ref -> is_bad_frequency ref = false ->
-    model_estimate (recv_time_ms ref) (ts_val ref) now (sg_tsval s) = None ->
+    model_eval (recv_time_ms ref) (ts_val ref) now (sg_tsval s) = EvBad ->
     let tr' := fst (process_segment tr s now) in
     snd (process_segment tr s now) = ROut None None /\
     Forall silent (outputs_of (seg_key s) h (run_history tr' h)) /\
@@ -144,10 +146,27 @@ Check C19_history :
     map to_sresult (run_history [] h) = spec_history [] h.
 Print Assumptions C19_history.
 
+(* ---- the remaining known class is only a withheld report: on a sub-5-tick in-bounds pair the code
+        neither reports nor marks, and the tracker is left exactly as it was ---- *)
+Theorem C19_small_advance_keeps_waiting :
+  (forall t1 v1 t2 v2 : Z, known_small_advance t1 v1 t2 v2 = true -> model_eval t1 v1 t2 v2 = EvWait) /\
+  (forall (tr : cache) (s : segment) (now : Z) (ref : tcp_timestamp),
+      seg_valid s = true -> cache_get tr (seg_key s) = Some ref -> is_bad_frequency ref = false ->
+      model_eval (recv_time_ms ref) (ts_val ref) now (sg_tsval s) = EvWait ->
+      process_segment tr s now = (tr, ROut None None)).
+Proof. exact (conj eval_small_advance process_wait). Qed.
+Check C19_small_advance_keeps_waiting :
+  (forall t1 v1 t2 v2 : Z, known_small_advance t1 v1 t2 v2 = true -> model_eval t1 v1 t2 v2 = EvWait) /\
+  (forall (tr : cache) (s : segment) (now : Z) (ref : tcp_timestamp),
+      seg_valid s = true -> cache_get tr (seg_key s) = Some ref -> is_bad_frequency ref = false ->
+      model_eval (recv_time_ms ref) (ts_val ref) now (sg_tsval s) = EvWait ->
+      process_segment tr s now = (tr, ROut None None)).
+Print Assumptions C19_small_advance_keeps_waiting.
+
 (* ---- witnesses: each known class is inhabited and the code really departs from the SPEC there ---- *)
 Theorem C19_Known_small_advance_refuted :
   exists t1 v1 t2 v2, wf_obs t1 v1 /\ wf_obs t2 v2 /\ known_small_advance t1 v1 t2 v2 = true /\
-                      model_estimate t1 v1 t2 v2 <> spec_estimate t1 v1 t2 v2.
+                      model_estimate t1 v1 t2 v2 <> spec_estimate t1 v1 t2 v2 /\ model_eval t1 v1 t2 v2 = EvWait.
 Proof. exact Known_small_advance_refuted. Qed.
 Print Assumptions C19_Known_small_advance_refuted.
 (* former known class "backward movement reported" (repaired in /repo): its witnesses now agree with the SPEC *)
@@ -185,10 +204,12 @@ Print Assumptions C19_constants_match_source.
         Depends on the standard-library axioms of the classical reals (listed in props/C19.json). ---- *)
 Theorem C19_float_exact :
   forall t1 v1 t2 v2 : Z,
-    0 <= v2 < 4294967296 -> f64_estimate t1 v1 t2 v2 = model_estimate t1 v1 t2 v2.
-Proof. exact f64_estimate_eq. Qed.
+    0 <= v2 < 4294967296 ->
+    f64_eval t1 v1 t2 v2 = model_eval t1 v1 t2 v2 /\ f64_estimate t1 v1 t2 v2 = model_estimate t1 v1 t2 v2.
+Proof. intros t1 v1 t2 v2 H. split; [now apply f64_eval_eq | now apply f64_estimate_eq]. Qed.
 Check C19_float_exact :
   forall t1 v1 t2 v2 : Z,
-    0 <= v2 < 4294967296 -> f64_estimate t1 v1 t2 v2 = model_estimate t1 v1 t2 v2.
+    0 <= v2 < 4294967296 ->
+    f64_eval t1 v1 t2 v2 = model_eval t1 v1 t2 v2 /\ f64_estimate t1 v1 t2 v2 = model_estimate t1 v1 t2 v2.
 Set Printing Width 400.
 Print Assumptions C19_float_exact.
